@@ -2625,11 +2625,23 @@ fn run_serde(case: &Value) -> Value {
                 "json": serde_json::to_value(c).unwrap_or(Value::Null)}));
         }
     }
+    // policy entries: typed fields (absent vs present-and-empty lists kept apart) next to their serialisation
+    let mut policy_entries = Vec::new();
+    for (_name, _version, p) in s0.config.policy.iter() {
+        let dep: Vec<Value> = p
+            .dependency_criteria
+            .iter()
+            .map(|(k, v)| json!([k.to_string(), strs(v)]))
+            .collect();
+        policy_entries.push(json!({"typed": {"audit_as": p.audit_as_crates_io, "criteria": p.criteria.as_ref().map(&strs),
+            "dev": p.dev_criteria.as_ref().map(&strs), "dep": dep, "notes": p.notes},
+            "json": serde_json::to_value(p).unwrap_or(Value::Null)}));
+    }
     for e in s0.config.exemptions.values().flatten() {
         entries.push(json!({"type": "exemption", "typed": {"version": e.version.to_string(), "criteria": strs(&e.criteria),
             "suggest": e.suggest, "notes": e.notes}, "json": serde_json::to_value(e).unwrap_or(Value::Null)}));
     }
-    json!({"status": "ok", "obs": obs, "entries": entries, "debug_equal": debug_equal,
+    json!({"status": "ok", "obs": obs, "entries": entries, "policy_entries": policy_entries, "debug_equal": debug_equal,
            "policies_before": policies_before, "policies_after": policies_after, "policy_typed": policy_typed, "written": {"config": t1["config.toml"], "audits": t1["audits.toml"], "imports": t1["imports.lock"]},
            "values": store_json(&s0), "values_reread": r1b.as_ref().ok().map(store_json)})
 }
